@@ -262,6 +262,21 @@ def about(ix: Index, msg: str, context_classes: Set[str]) -> Tuple[List[Entity],
     return at, inside
 
 
+def _at_quoted_part(ix: "Index", at: Sequence["Entity"], loc: Pos, msg: str) -> bool:
+    """The error is located at the first character of a PART of a named construct whose own text the message quotes
+    (e.g. the literal ``18446744073709551616`` of a constant set: "The literal 18446744073709551616 of the constant set …"):
+    that part is the offending construct, and it lies inside what the message names."""
+    for e in at:
+        if not (e.first <= loc[0] <= e.last):
+            continue
+        for n in ast.walk(e.node):
+            if getattr(n, "lineno", None) == loc[0] and hasattr(n, "col_offset") and _char_col(ix.lines, n.lineno, n.col_offset) + 1 == loc[1]:
+                seg = ast.get_source_segment(ix.src, n)
+                if seg and len(seg) >= 1 and (seg in msg or ast.unparse(n) in msg):
+                    return True
+    return False
+
+
 def judge_entities(ix: Index, entries: Sequence[Entry]) -> List[Tuple[str, str]]:
     """The entity rule on the errors of one report (in rendering order)."""
     stack: List[Tuple[int, List[Entity], Set[str]]] = []  # (depth, inside-constructs, classes named) of the errors above
@@ -274,7 +289,7 @@ def judge_entities(ix: Index, entries: Sequence[Entry]) -> List[Tuple[str, str]]
         if loc is not None:
             if at:
                 if depth == 0:
-                    if not any(loc in e.starts for e in at):
+                    if not any(loc in e.starts for e in at) and not _at_quoted_part(ix, at, loc, msg):
                         where = enclosing(ix, loc[0])
                         return [(
                             "C04:generator:located-at-another-construct",
